@@ -14,6 +14,7 @@ import (
 	"os"
 	"path/filepath"
 	"runtime"
+	"strings"
 	"sync"
 	"time"
 
@@ -161,6 +162,20 @@ func renderLine(e entry) []byte {
 
 var fillers = [][]byte{[]byte(""), []byte("   "), []byte("# a comment"), []byte("\t# domain:zzz.example"), []byte("#")}
 
+// longComment: a comment longer than a 4096-octet read buffer (below the loader's 64 KiB line limit); what
+// follows the '#' is a comment to the end of the line, however long the line is
+func longComment() []byte {
+	n := []int{4090, 4096, 4200, 9000, 60000}[rng.Intn(5)] + rng.Intn(8)
+	switch rng.Intn(3) {
+	case 0:
+		return append(append([]byte("#"), bytes.Repeat([]byte("c"), n)...), []byte("tail.long-comment.example")...)
+	case 1:
+		return append(append([]byte("# "), bytes.Repeat([]byte("x "), n/2)...), []byte(" glued.example")...)
+	default:
+		return append(append([]byte("\t# full:"), bytes.Repeat([]byte("a."), n/2)...), []byte("\ttail.long-comment.example")...)
+	}
+}
+
 type session struct {
 	m  *domainmatcher.MixMatcher
 	rm interface{ Match([]byte) bool } // a set loaded by the router's own loader (several files)
@@ -190,6 +205,15 @@ func (s *session) load(es []entry) {
 	for _, e := range es {
 		for rng.Intn(5) == 0 {
 			lines = append(lines, ln{line: fillers[rng.Intn(len(fillers))]})
+		}
+		if rng.Intn(12) == 0 {
+			if c := longComment(); e.kind != "regexp" && rng.Intn(3) == 0 {
+				// the entry itself with a long trailing comment
+				lines = append(lines, ln{line: append(append(renderLine(e), []byte("  ")...), c...)})
+				continue
+			} else {
+				lines = append(lines, ln{line: c})
+			}
 		}
 		lines = append(lines, ln{line: renderLine(e), re: e.n, isRe: e.kind == "regexp"})
 	}
@@ -513,6 +537,13 @@ func randomLists(lists, entries, probes int) {
 				ln = append(ln, bytes.Repeat([]byte{fill}, l))
 			}
 			ps = append(ps, ln)
+		}
+		for _, t := range []string{"tail.long-comment.example", "glued.example"} {
+			var n name
+			for _, l := range strings.Split(t, ".") {
+				n = append(n, []byte(l))
+			}
+			ps = append(ps, n)
 		}
 		nfiles := 1 + rng.Intn(3)
 		per := (len(es) + nfiles - 1) / nfiles
